@@ -49,8 +49,13 @@ is_6531_local (const char *start, const char *end)
     utf8_decode_init (start, end - start, &u);
     while ((ch = utf8_decode_next (&u)) >= 0) {
         /* skip non-ASCII characters */
-        if (ch > 0x007f)
+        if (ch > 0x007f) {
+            /* quoted-pairSMTP = %d92 %d32-126 */
+            if (qpair)
+                return inverse(EEAV_LPART_NOT_ASCII);
+            prev = utf8_decode_at_byte (&u);
             continue;
+        }
 
         /* rfc5321 does not allow any CTRL chars */
 #ifndef RFC6531_FOLLOW_RFC5322
@@ -73,7 +78,7 @@ is_6531_local (const char *start, const char *end)
                 /* quote-strings are allowed at the start
                  * or with preciding '.' only
                  */
-                if (prev == 0 || start[prev] == '.')
+                if (utf8_decode_at_byte(&u) == 0 || start[prev] == '.')
                     quote = 1;
                 else
                     return inverse(EEAV_LPART_MISPLACED_QUOTE);
